@@ -148,7 +148,7 @@ theorem removeGate_spec {c c' : Circuit} {l : Label} (h : c.removeGate l = .ok c
     l ∈ c.labels ∧ c.usersOf l = [] ∧
     c'.gates = c.gates.filter (fun x => !(x.label == l)) ∧
     c'.outputs = c.outputs.filter (fun o => !(o == l)) ∧
-    c'.blocks = c.blocks.filter (fun b => !(b.gates.contains l || b.inputs.contains l)) ∧
+    c'.blocks = c.blocks.filter (fun b => !(b.gates.contains l || b.inputs.contains l || b.outputs.contains l)) ∧
     (∀ x ∈ c'.inputs, x ∈ c.inputs) := by
   unfold removeGate at h
   split at h
